@@ -56,4 +56,19 @@ theorem reinsertion_dropped {α} (F : Frame α) (okS okF : Key → Bool) (d : α
       simp [Frame.sanitize, List.idxOf?, List.findIdx?_eq_none_iff, List.mem_filter]
       intro x _ hx hxs; subst hxs; simp [h] at hx
     cases (F.sanitize okS okF).rows.idxOf? s <;> simp [this]
+/-- `transform` of labelled data by a fitted frame: one row per given sample label, the columns in the FITTED order, every entry looked
+up BY LABEL (the order in which the new data happens to carry its feature labels plays no role) -/
+def transformBy {α} (fitCols rows : List Key) (val : Key → Key → α) : List (List α) :=
+  rows.map fun s => fitCols.map fun f => val s f
+
+/-- projecting the training frame itself gives the fitted matrix -/
+theorem transformBy_training {α} (F : Frame α) : transformBy F.cols F.rows F.val = F.toMat := rfl
+
+/-- re-transforming what `inverse_transform` hands back (the read-back labelled data) gives the fitted matrix again -/
+theorem transformBy_readBack {α} (F : Frame α) (d : α) :
+    transformBy F.cols F.rows (readBack F.rows F.cols F.toMat d) = F.toMat := by
+  unfold transformBy Frame.toMat
+  apply List.map_congr_left; intro s hs
+  apply List.map_congr_left; intro f hf
+  exact roundtrip F d s f hs hf
 end S
